@@ -140,6 +140,29 @@ fn q_value(i: u8) -> f32 {
     }
 }
 
+/// A body stream that, as `MessageBody::poll_next` allows, panics when it is polled again after
+/// it has returned `Ready(None)`.
+struct StrictStream {
+    parts: std::collections::VecDeque<Vec<u8>>,
+    ended: bool,
+}
+
+impl futures_core::Stream for StrictStream {
+    type Item = Result<Bytes, actix_web::Error>;
+    fn poll_next(mut self: std::pin::Pin<&mut Self>, _cx: &mut std::task::Context<'_>) -> std::task::Poll<Option<Self::Item>> {
+        if self.ended {
+            panic!("response body polled again after it had returned Ready(None)");
+        }
+        match self.parts.pop_front() {
+            Some(p) => std::task::Poll::Ready(Some(Ok(Bytes::from(p)))),
+            None => {
+                self.ended = true;
+                std::task::Poll::Ready(None)
+            }
+        }
+    }
+}
+
 pub fn run_case(_cfg: &RunCfg, case: &Case) -> Verdict {
     match case {
         Case::Response { status, chunks, seed, compressible, kind, pre_encoded, ctype, ae, write_buf } => {
@@ -192,7 +215,7 @@ pub fn run_case(_cfg: &RunCfg, case: &Case) -> Verdict {
                         if matches!(st, 204 | 304) {
                             return b.finish();
                         }
-                        let stream = futures_util::stream::iter(hp.clone().into_iter().map(|p| Ok::<_, actix_web::Error>(Bytes::from(p))));
+                        let stream = StrictStream { parts: hp.clone().into_iter().collect(), ended: false };
                         match kind {
                             Kind::Bytes => b.body(hp.concat()),
                             Kind::Stream => b.streaming(stream),
@@ -425,8 +448,8 @@ pub fn run(cfg: &RunCfg) -> Report {
     ];
     runner::replay_pinned(&mut rep, cfg, &replay);
     runner::replay_regress(&mut rep, cfg, &replay);
-    explore(&mut rep, cfg, "response", cfg.cases(12_000, 240_000), response_case, |c| run_case(cfg, c));
-    explore(&mut rep, cfg, "request", cfg.cases(6_000, 120_000), request_case, |c| run_case(cfg, c));
+    explore(&mut rep, cfg, "response", cfg.cases(60_000, 1_200_000), response_case, |c| run_case(cfg, c));
+    explore(&mut rep, cfg, "request", cfg.cases(30_000, 600_000), request_case, |c| run_case(cfg, c));
     rep
 }
 
